@@ -240,6 +240,29 @@ func setField(fv reflect.Value, a J) {
 
 // ---------------------------------------------------------------- Project
 
+// recognisedByCompiledCode: x.(T) on a non-empty interface compares itab pointers, so the dynamic type reflection reports and the
+// type compiled assertions recognise can differ when the interface word was stored through an unsafe view. Only addressable fields
+// declared as Item can be examined; everything else is taken as recognised.
+func recognisedByCompiledCode(fv reflect.Value) bool {
+	if !fv.CanAddr() {
+		return true
+	}
+	p, ok := fv.Addr().Interface().(*ap.Item)
+	if !ok {
+		return fv.Type().Name() == "" // a field of another NAMED interface type cannot hold what an Item field holds
+	}
+	switch (*p).(type) {
+	case ap.IRI, *ap.IRI, ap.IRIs, *ap.IRIs, ap.ItemCollection, *ap.ItemCollection,
+		ap.Object, *ap.Object, ap.Actor, *ap.Actor, ap.Activity, *ap.Activity, ap.IntransitiveActivity, *ap.IntransitiveActivity,
+		ap.Question, *ap.Question, ap.Collection, *ap.Collection, ap.CollectionPage, *ap.CollectionPage,
+		ap.OrderedCollection, *ap.OrderedCollection, ap.OrderedCollectionPage, *ap.OrderedCollectionPage,
+		ap.Place, *ap.Place, ap.Profile, *ap.Profile, ap.Relationship, *ap.Relationship, ap.Tombstone, *ap.Tombstone, ap.Link, *ap.Link:
+		return true
+	}
+	_, known := goTypes[reflect.Indirect(fv.Elem()).Type().Name()]
+	return !known // a type foreign to the vocabulary is reported as foreign by projectItem itself
+}
+
 func projectItem(it interface{}) J {
 	if it == nil {
 		return J{"k": "nil"}
@@ -299,6 +322,12 @@ func projectField(fv reflect.Value) J {
 	case "item":
 		if fv.IsNil() {
 			return nil
+		}
+		if !recognisedByCompiledCode(fv) {
+			// reflection sees a vocabulary value, compiled type assertions on the field do not (an interface word written through a
+			// field of another named interface type): for every user of the library this is not that value
+			// (kept inside the specifications' value domain: an IRI no expected value can be equal to)
+			return J{"k": "iri", "iri": "!unassertable-interface-value:" + fv.Elem().Type().String()}
 		}
 		return projectItem(fv.Interface())
 	case "items":
